@@ -1249,12 +1249,18 @@ func (c *Context) Pow(d, x, y *Decimal) (Condition, error) {
 	}
 
 	// decNumber sets the precision to be max(x digits, c.Precision) +
-	// len(exponent) + 4. 6 is used as the exponent maximum length.
+	// len(exponent) + 4. The relative error of the integer power grows with
+	// the exponent, so its actual length is used when it has more than 6
+	// digits.
 	p := c.Precision
 	if nd := uint32(x.NumDigits()); p < nd {
 		p = nd
 	}
-	p += 4 + 6
+	elen := integ.NumDigits() + int64(integ.Exponent)
+	if elen < 6 {
+		elen = 6
+	}
+	p += 4 + uint32(elen)
 
 	nc := BaseContext.WithPrecision(p)
 
